@@ -1,4 +1,5 @@
 import Proofs.CoherenceWeights
+import Proofs.MutWireGenEq
 
 /-!
 # C02 — after any mutation an agent is coherent: optimizers, targets and critics follow
@@ -241,5 +242,112 @@ example : ((run false [td3] history).map fun a => (a.index, a.label, coherent a)
     [(4, "None", true), (5, "batch_size", true)] := by decide +kernel
 example : ((run false [td3] (history.take 2)).map fun a => (a.label, a.lrs, archFollowed a.nets)) =
     [("encoder.add_node", [1 / 10000, 1 / 1000], true), ("lr_critic", [1 / 10000, 1 / 2000], true)] := by decide +kernel
+
+/-! ### the same theorems over the wiring GENERATED from the source text of `agilerl/hpo/mutation.py`
+
+`Gen/MutWireGen.lean` is written by `harness/py2lean_mutwire.py` from the source of the tree under test (which registry
+groups are walked for target re-creation and under which condition, policy first and then the same method and keyword
+dict for the other evaluation networks, which optimizers are re-created and from which learning-rate attribute, the hook,
+`mut`).  `MutWireGenEq.genMutate1 e c a` runs ONE individual through the generated body of the loop of
+`Mutations.mutation` (`e` = what the individual answers to the run-time tests of the source); `gen_mutate1_eq` proves it
+equal to the model's `mutate1` for EVERY registry descriptor, so the theorems above hold of what the code says now. -/
+
+open MutWireGenEq in
+/-- **the generated wiring is the model's**, for all registries, all drawn kinds, all fresh objects -/
+theorem C02_source_translation_wiring (e : Env) (c : Choice) (a : Agent) (h : Inv a) (he : EnvOK e a) :
+    genMutate1 e c a = mutate1 false c a := gen_mutate1_eq e c a h he
+
+open MutWireGenEq in
+/-- whatever kind is drawn, the individual that leaves the generated `Mutations.mutation` is coherent (and satisfies the
+    invariant again) -/
+theorem C02_source_translation_mutation_keeps_coherent (e : Env) (c : Choice) (a : Agent) (h : Inv a) (he : EnvOK e a) :
+    Coherent (genMutate1 e c a) ∧ Inv (genMutate1 e c a) := by
+  rw [gen_mutate1_eq e c a h he]
+  exact C02_mutation_keeps_coherent c a h
+
+open MutWireGenEq in
+/-- **optimizers follow**: after the generated mutation every optimizer holds exactly the current parameters of its
+    registered networks, module by module and in order, and every group trains with the agent's CURRENT learning rate -/
+theorem C02_source_translation_optimizers_follow (e : Env) (c : Choice) (a : Agent) (h : Inv a) (he : EnvOK e a)
+    (o : Opt) (ho : o ∈ (genMutate1 e c a).opts) :
+    o.groups.map (·.cells) = o.nets.flatMap (paramsOf (genMutate1 e c a).nets) ∧
+    ∀ g ∈ o.groups, g.lr = (genMutate1 e c a).lrs.getD o.lr 0 :=
+  (C02_source_translation_mutation_keeps_coherent e c a h he).1.1 o ho
+
+open MutWireGenEq in
+/-- **targets follow**: right after the generated mutation every shared / target network of EVERY group has the
+    architecture and the weights of the evaluation network it shadows -/
+theorem C02_source_translation_shared_follow (e : Env) (c : Choice) (a : Agent) (h : Inv a) (he : EnvOK e a)
+    (hk : HookOK (roles (kindStep false c a).nets) (kindStep false c a).hook) :
+    SharedArch (genMutate1 e c a).nets ∧ SharedWeights (genMutate1 e c a).nets := by
+  rw [gen_mutate1_eq e c a h he]
+  exact C02_shared_follow_after_mutate c a h hk
+
+open MutWireGenEq in
+/-- **critics follow the policy**: after a generated architecture mutation module `j` of every evaluation network carries
+    the change applied to module `j` of the policy (method AND arguments) -/
+theorem C02_source_translation_arch_followed (e : Env) (applied : List (Option Change)) (fresh : Fresh) (stamp : Nat) (a : Agent)
+    (h : Inv a) (he : EnvOK e a) (k : Nat) (n : NetAttr)
+    (hk : (genMutate1 e { kind := Kind.arch applied, fresh := fresh, stamp := stamp } a).nets[k]? = some n)
+    (hev : n.role.isEval = true) :
+    n.mods.map (·.lastMut) = (List.range n.mods.length).map (fun j => applied.getD j none) := by
+  rw [gen_mutate1_eq e _ a h he] at hk
+  exact C02_arch_followed false applied fresh stamp a k n hk hev
+
+open MutWireGenEq in
+/-- the target network the generated `reinit_from_mutated` builds: module `j` is `type(m)(**m.init_dict)` loaded with the
+    FULL state dict of module `j` of the network it shadows — a copy of its architecture and weights -/
+theorem C02_source_translation_target_is_copy (ctx : Ctx) (nets : List NetAttr) (dst src : Nat) :
+    evalNet ctx nets dst (MutWireGen.reinit_from_mutated src ctx.multi false) =
+      some ((modsAt nets src).mapIdx fun j m => copyMod (ctx.stamp, dst, j) (ctx.fresh.at dst j) m) :=
+  gen_reinit_from_mutated_eq ctx nets dst src
+
+open MutWireGenEq in
+/-- **population shape** of the generated `Mutations.mutation`: as many agents as given, in the same order, each reporting
+    the mutation it received -/
+theorem C02_source_translation_population_shape (e : Env) (choices : List Choice) (pop : Pop)
+    (h : ∀ a ∈ pop, Inv a ∧ EnvOK e a) (hl : pop.length ≤ choices.length) :
+    (MutWireGen.mutation_population (genMutate1 e) choices pop).length = pop.length ∧
+    (MutWireGen.mutation_population (genMutate1 e) choices pop).map (·.index) = pop.map (·.index) ∧
+    ∀ (i : Nat) (a : Agent), pop[i]? = some a →
+      ((MutWireGen.mutation_population (genMutate1 e) choices pop)[i]?).map (·.label) = some (labelOf a (choices.getD i {}).kind) := by
+  have heq : MutWireGen.mutation_population (genMutate1 e) choices pop = mutatePop false choices pop := by
+    rw [gen_mutation_population_eq _ _ _ hl]
+    unfold mutatePop
+    apply List.ext_getElem?
+    intro i
+    simp only [List.getElem?_mapIdx]
+    cases hp : pop[i]? with
+    | none => rfl
+    | some a =>
+      have ha := h a (mem_of_getElem? hp)
+      simp only [Option.map_some, Option.some.injEq]
+      exact gen_mutate1_eq e _ a ha.1 ha.2
+  rw [heq]
+  exact C02_population_shape false choices pop
+
+open MutWireGenEq in
+/-- the hypotheses are satisfiable: the TD3-like registry with its environment -/
+theorem td3_envOK : EnvOK { multi := false, pol := 0, algo := "TD3", bandit := false } td3 := by
+  refine ⟨?_, by decide +kernel, ?_, by decide +kernel, fun h => by cases h⟩
+  · intro k n hk
+    have hlt : k < 6 := by
+      have := (List.getElem?_eq_some_iff.mp hk).1
+      have hl : td3.nets.length = 6 := by decide +kernel
+      omega
+    have hr : roles td3.nets = [.eval true, .shared 0, .eval false, .shared 2, .eval false, .shared 4] := by decide +kernel
+    have hnr : (roles td3.nets)[k]? = some n.role := by simp [roles, hk]
+    rw [hr] at hnr
+    have : k = 0 ∨ k = 1 ∨ k = 2 ∨ k = 3 ∨ k = 4 ∨ k = 5 := by omega
+    rcases this with rfl | rfl | rfl | rfl | rfl | rfl <;> simp at hnr <;> simp [← hnr]
+  · intro o ho hm
+    have : td3.opts.all (fun o => !o.multi) = true := by decide +kernel
+    have := List.all_eq_true.mp this o ho
+    simp [hm] at this
+
+open MutWireGenEq in
+example : coherent (genMutate1 { multi := false, pol := 0, algo := "TD3", bandit := false } hpChoice td3) = true := by
+  rw [gen_mutate1_eq _ _ _ td3_inv td3_envOK]
+  decide +kernel
 
 end Coherence
